@@ -122,7 +122,7 @@ class TempProject:
         with open(self.path(self.fmt), "w", encoding="utf-8", newline="") as f:
             f.write(self.config_text())
         for path, pats in self.files.items():
-            if path in self.contents or path == self.fmt:
+            if path in self.contents or path == self.fmt or "*" in path:
                 continue
             lines = ["# header of %s" % path]
             for p in pats:
